@@ -23,7 +23,13 @@ def main():
     ap.add_argument("--only", default="")
     ap.add_argument("--extra", default="")
     ap.add_argument("--tier", default="quick")
+    ap.add_argument("--shard", default="0/1", help="k/n: take every n-th change starting at k (run n of these in parallel)")
+    ap.add_argument("--lean-dir", default="", help="a second build directory (copy of lean/) for this shard")
     a = ap.parse_args()
+    global WT
+    k, n = map(int, a.shard.split("/"))
+    if n > 1:
+        WT = f"{WT}_{k}"
     only = [x for x in a.only.split(",") if x]
     sh(f"git -C /repo worktree remove --force {WT}", "/")
     rc, o = sh(f"git -C /repo worktree add -f --detach {WT} HEAD", "/")
@@ -32,8 +38,10 @@ def main():
         return 2
     summary = []
     try:
-        for sid in sorted(os.listdir(os.path.join(VERIF, "seeded"))):
+        for idx, sid in enumerate(sorted(os.listdir(os.path.join(VERIF, "seeded")))):
             if only and sid not in only:
+                continue
+            if idx % n != k:
                 continue
             d = os.path.join(VERIF, "seeded", sid)
             patch = os.path.join(d, "patch.diff")
@@ -49,6 +57,8 @@ def main():
             res = {}
             for pid in [prop] + [x for x in a.extra.split(",") if x and x != prop]:
                 env = dict(os.environ, VERIF_REPO=WT)
+                if a.lean_dir:
+                    env["VERIF_LEAN_DIR"] = a.lean_dir
                 rc, o = sh(f"bin/check {pid} --tier {a.tier}", VERIF, env=env)
                 lines = [l for l in o.splitlines() if l.startswith(("VIOLATION", "["))]
                 res[pid] = {"rc": rc, "violations": sum(1 for l in lines if l.startswith("VIOLATION")),
